@@ -125,6 +125,8 @@ T.append(tree('D15 help', cmd('app', 'root', extra=[grp('Application Options', [
     opt('', 'hid', 'scalar', 'string', desc='hidden option', hidden=True),
     opt('w', '', 'flag', desc='a supercalifragilisticexpialidociouslylongwordthatcannotbebrokenatablank end'),
     opt('', 'nodesc', 'scalar', 'int'),
+    opt('', 'cjk', 'flag', desc='日本語の説明文は空白を含まないので強制的に折り返されます'),
+    opt('', 'mix', 'flag', desc='aaaaaaaaaébbbbbbbbbé😀ccccccccéddddddddddж 100% sure'),
     opt('m', 'map', 'map', 'string', desc='with\nnewline', init=['b:2', 'a:1'])],
     [grp('Nested', [opt('', 'x', 'scalar', 'string', desc='nested x', env='X')], ns='ns', envNs='NS'),
      grp('Hidden Group', [opt('', 'inhid', 'flag', desc='in hidden group')], hidden=True)])],
